@@ -208,3 +208,51 @@ def has_atoms(node, stop, patterns, exact=False, about=None):
             if i not in used and a.node is not None and any(isinstance(x, ast.Name) and x.id == about for x in ast.walk(a.node)):
                 return False
     return True
+
+
+def atoms_expanded(node, stop=None, depth=3):
+    """atoms(), with a boolean temporary (a local bound exactly once in `stop` to a boolean expression) replaced by the
+    atoms of its definition, so that `ok = a or b` ... `if not ok:` reads as `not a`, `not b`."""
+    from . import canon
+    from .pysrc import norm
+
+    func = stop
+    defs = {}
+    if func is not None:
+        for n in ast.walk(func):
+            if isinstance(n, ast.Assign) and len(n.targets) == 1 and isinstance(n.targets[0], ast.Name):
+                defs.setdefault(n.targets[0].id, []).append(n.value)
+            elif isinstance(n, (ast.AugAssign, ast.NamedExpr)) and isinstance(getattr(n, "target", None), ast.Name):
+                defs.setdefault(n.target.id, []).append(None)
+            elif isinstance(n, (ast.For, ast.comprehension)):
+                for x in ast.walk(n.target):
+                    if isinstance(x, ast.Name):
+                        defs.setdefault(x.id, []).append(None)
+    out = []
+
+    def boolish(e):
+        return isinstance(e, (ast.BoolOp, ast.Compare)) or (isinstance(e, ast.UnaryOp) and isinstance(e.op, ast.Not))
+
+    def add(e, origin, d):
+        if isinstance(e, ast.BoolOp) and isinstance(e.op, ast.And):
+            for v in e.values:
+                add(v, origin, d)
+            return
+        pos, neg_ = e, False
+        if isinstance(e, ast.UnaryOp) and isinstance(e.op, ast.Not):
+            pos, neg_ = e.operand, True
+        if isinstance(pos, ast.Name) and d > 0 and len(defs.get(pos.id, [])) == 1 and defs[pos.id][0] is not None and boolish(defs[pos.id][0]):
+            v = defs[pos.id][0]
+            add(canon.neg(v) if neg_ else v, v, d - 1)
+            return
+        if not hasattr(e, "_parent"):
+            try:
+                e._canon = getattr(origin, "_canon", False)
+                e._parent = getattr(origin, "_parent", None)
+            except AttributeError:
+                pass
+        out.append(norm(e))
+
+    for t, pol in guards(node, stop):
+        add(t if pol else canon.neg(t), t, depth)
+    return out
